@@ -49,3 +49,37 @@ pub fn memcmp(a: &[u8], b: &[u8]) -> core::cmp::Ordering {
     }
     a.len().cmp(&b.len())
 }
+
+/// One-row array holding `v`, NULL when `null`.
+///
+/// Built without the Option iterator adapter, and a NULL row is represented by
+/// the `AllInvalid` validity variant (the representation `Array::new_null` and
+/// constant NULL arrays use) rather than by a one-byte bitmap: with a heap
+/// bitmap on an *input* of the binary executor CBMC's propositional reduction
+/// produced 77 M clauses / >14 GB (measured); this form takes about a minute.
+pub fn arr1<T>(v: T, null: bool) -> crate::arrays::array::Array
+where
+    crate::arrays::array::Array:
+        crate::util::iter::TryFromExactSizeIterator<T, Error = glaredb_error::DbError>,
+{
+    use crate::util::iter::TryFromExactSizeIterator;
+    let mut arr = ok(crate::arrays::array::Array::try_from_iter([v]));
+    if null {
+        arr.validity = crate::arrays::array::validity::Validity::new_all_invalid(1);
+    }
+    arr
+}
+
+/// Same, but the NULL row is marked in a bitmap (`Validity::set_invalid`).
+pub fn arr1_mask<T>(v: T, null: bool) -> crate::arrays::array::Array
+where
+    crate::arrays::array::Array:
+        crate::util::iter::TryFromExactSizeIterator<T, Error = glaredb_error::DbError>,
+{
+    use crate::util::iter::TryFromExactSizeIterator;
+    let mut arr = ok(crate::arrays::array::Array::try_from_iter([v]));
+    if null {
+        arr.validity.set_invalid(0);
+    }
+    arr
+}
